@@ -228,6 +228,7 @@ pub fn get_insertion_index(position: &Position, text: &str) -> usize {
 
 /// Verification hook: exposes the private change conversion to the correspondence harness.
 #[cfg(feature = "verif")]
+#[allow(dead_code)]
 pub fn verif_to_text_changes(
     changes: Vec<TextDocumentContentChangeEvent>,
     text: String,
